@@ -55,6 +55,23 @@ const (
 	matchResultOptionalNoData                    // statement has no data and is optional
 )
 
+// severity orders the results from the most passing to the most failing one:
+// true < optional no data < no data < false.
+// Connectives and quantifiers combine the results of their children with it:
+// "and" and "all" keep the most failing one, "or" and "any" the most passing one.
+func (r matchResult) severity() int {
+	switch r {
+	case matchResultTrue:
+		return 0
+	case matchResultOptionalNoData:
+		return 1
+	case matchResultNoData:
+		return 2
+	default: // matchResultFalse
+		return 3
+	}
+}
+
 // matchStatement evaluate the policy against the given ipld.Node and returns:
 // - matchResultTrue: if the selector matched and the statement evaluated to true.
 // - matchResultFalse: if the selector matched and the statement evaluated to false.
@@ -140,36 +157,32 @@ func matchStatement(cur Statement, node ipld.Node) (_ matchResult, leafMost Stat
 		}
 	case KindAnd:
 		if s, ok := cur.(connective); ok {
+			// Every operand is evaluated and the most failing result wins, so that
+			// the outcome doesn't depend on the order of the operands.
+			res, leaf := matchResultTrue, Statement(nil)
 			for _, cs := range s.statements {
-				res, leaf := matchStatement(cs, node)
-				switch res {
-				case matchResultNoData, matchResultOptionalNoData:
-					return res, leaf
-				case matchResultTrue:
-					// continue
-				case matchResultFalse:
-					return matchResultFalse, leaf
+				csRes, csLeaf := matchStatement(cs, node)
+				if csRes.severity() > res.severity() {
+					res, leaf = csRes, csLeaf
 				}
 			}
-			return matchResultTrue, nil
+			return res, leaf
 		}
 	case KindOr:
 		if s, ok := cur.(connective); ok {
 			if len(s.statements) == 0 {
 				return matchResultTrue, nil
 			}
+			// Every operand is evaluated and the most passing result wins, so that
+			// the outcome doesn't depend on the order of the operands.
+			res, leaf := matchResultFalse, cur
 			for _, cs := range s.statements {
-				res, leaf := matchStatement(cs, node)
-				switch res {
-				case matchResultNoData, matchResultOptionalNoData:
-					return res, leaf
-				case matchResultTrue:
-					return matchResultTrue, leaf
-				case matchResultFalse:
-					// continue
+				csRes, csLeaf := matchStatement(cs, node)
+				if csRes.severity() < res.severity() {
+					res, leaf = csRes, csLeaf
 				}
 			}
-			return matchResultFalse, cur
+			return res, leaf
 		}
 	case KindLike:
 		if s, ok := cur.(wildcard); ok {
@@ -199,22 +212,20 @@ func matchStatement(cur Statement, node ipld.Node) (_ matchResult, leafMost Stat
 			if it == nil {
 				return matchResultFalse, cur // not a list
 			}
+			// Every element is visited and the most failing result wins, so that
+			// the outcome doesn't depend on the order of the elements.
+			allRes, allLeaf := matchResultTrue, Statement(nil)
 			for !it.Done() {
 				_, v, err := it.Next()
 				if err != nil {
 					panic("should never happen")
 				}
 				matchRes, leaf := matchStatement(s.statement, v)
-				switch matchRes {
-				case matchResultNoData, matchResultOptionalNoData:
-					return matchRes, leaf
-				case matchResultTrue:
-					// continue
-				case matchResultFalse:
-					return matchResultFalse, leaf
+				if matchRes.severity() > allRes.severity() {
+					allRes, allLeaf = matchRes, leaf
 				}
 			}
-			return matchResultTrue, nil
+			return allRes, allLeaf
 		}
 	case KindAny:
 		if s, ok := cur.(quantifier); ok {
@@ -229,22 +240,20 @@ func matchStatement(cur Statement, node ipld.Node) (_ matchResult, leafMost Stat
 			if it == nil {
 				return matchResultFalse, cur // not a list
 			}
+			// Every element is visited and the most passing result wins, so that
+			// the outcome doesn't depend on the order of the elements.
+			anyRes, anyLeaf := matchResultFalse, cur
 			for !it.Done() {
 				_, v, err := it.Next()
 				if err != nil {
 					panic("should never happen")
 				}
 				matchRes, leaf := matchStatement(s.statement, v)
-				switch matchRes {
-				case matchResultNoData, matchResultOptionalNoData:
-					return matchRes, leaf
-				case matchResultTrue:
-					return matchResultTrue, nil
-				case matchResultFalse:
-					// continue
+				if matchRes.severity() < anyRes.severity() {
+					anyRes, anyLeaf = matchRes, leaf
 				}
 			}
-			return matchResultFalse, cur
+			return anyRes, anyLeaf
 		}
 	}
 	panic(fmt.Errorf("unimplemented statement kind: %s", cur.Kind()))
